@@ -106,7 +106,7 @@ func xferFsPart(name, mode string, shards int) *PartSpec {
 }
 
 func init() {
-	register("C05", &CheckSpec{Level: "model_checking", Assumptions: append([]string{"crash model: a process kill leaves exactly the effects of the file-system calls completed so far (WriteFile and WriteAt are split into halves, rename is atomic); power-loss reordering is out of scope"}, xferAssumptions...), Parts: []*PartSpec{xferFsPart("c05", "c05", 16)}})
+	register("C05", &CheckSpec{Level: "model_checking", Assumptions: append([]string{"crash model: a process kill leaves exactly the effects of the file-system calls completed so far (WriteFile and WriteAt are split into halves, rename is atomic); power-loss reordering is out of scope"}, xferAssumptions...), Parts: []*PartSpec{xferFsPart("c05", "c05", 16), xferFsPart("metadata-under-concurrent-flushers", "c05s", 16)}})
 	register("C04", &CheckSpec{Level: "fault_enumeration", Assumptions: append([]string{"crash model: a process kill leaves exactly the effects of the file-system calls completed so far (WriteFile and WriteAt are split into halves, rename is atomic); power-loss reordering is out of scope", "the interrupted runs follow the default schedule in the quick tier (deviation bound 1 for the completion runs of depth-1 states in the thorough tier)"}, xferAssumptions...), Parts: []*PartSpec{xferFsPart("c04", "c04", 8)}})
 	register("C07", &CheckSpec{Level: "exploration", Assumptions: []string{"the output directory sits 6 levels deep in a scratch jail and no attack string climbs more than 4 levels; absolute attack paths point into the jail", "every mutating file-system call of the receiver goes through the instrumented os seams (path log) and the jail is snapshotted before and after"}, Parts: []*PartSpec{xferFsPart("hostile-sender", "c07", 16)}})
 	c17 := xferPart("dispatch", "c17", 16)
